@@ -282,6 +282,10 @@ def evaluate(case):
         from elexmodel.handlers.data.VersionedData import VersionedDataHandler
 
         versions = _history([3, 3, 2, 2, 1, 1])
+        # ... and one version that is stored after the handler object was built (stamped far in the future): an open-ended
+        # window has no upper bound, whenever the object was constructed
+        versions.insert(0, {"Key": "root/x/current.csv", "VersionId": "v7", "LastModified": datetime(2100, 1, 1, tzinfo=timezone.utc), "Size": 99, "IsLatest": True})
+        versions[1]["IsLatest"] = False
         contents = {v["VersionId"]: _csv(v["VersionId"]) for v in versions}
         sign = 1 if case["offset"][0] == "+" else -1
         hh = int(case["offset"][1:3])
